@@ -69,9 +69,9 @@ def _ev(t, env, cache):
     if kind == z3.Z3_OP_GE:
         return a[0] >= a[1]
     if kind == z3.Z3_OP_EQ:
-        return a[0] == a[1]
+        return _eq(a[0], a[1], env)
     if kind == z3.Z3_OP_DISTINCT:
-        return a[0] != a[1]
+        return not _eq(a[0], a[1], env)
     if kind == z3.Z3_OP_AND:
         return all(a)
     if kind == z3.Z3_OP_OR:
@@ -85,6 +85,13 @@ def _ev(t, env, cache):
     if kind == z3.Z3_OP_UNINTERPRETED and name in _FUN:
         return _FUN[name](*a)
     raise NotImplementedError(f"evaluator: {t.decl()}")
+
+
+def _eq(x, y, env):
+    tol = env.get("__tol__")
+    if tol and isinstance(x, float) and isinstance(y, float) and not isinstance(x, bool):
+        return abs(x - y) <= tol * (abs(x) + abs(y)) or x == y  # mathematical identities (sqrt(x)^2 == x) under floating-point evaluation
+    return x == y
 
 
 def eval_g(g, rows):
